@@ -44,6 +44,9 @@ TInitStore(e) ==
      ELSE IF \E c \in co : c[1] = r /\ c[2] = "bad" THEN "bad" ELSE "ok"]
 
 Resync == sc.mode = "repair"
+\* only the trimmed bolt format rebuilds the previous signature of round r from the entry of round r-1
+Trimmed == IF "backend" \in DOMAIN sc THEN sc.backend = "trimmed" ELSE TRUE
+TChained == sc.chained /\ Trimmed
 THead == StoreHead(ts)
 TGoal == IF sc.mode = "repair" THEN 0
          ELSE IF sc.target > 0 THEN sc.target
@@ -142,6 +145,12 @@ StepPut(e) ==
         /\ str' = IF bySync THEN [str EXCEPT ![e.sid].pendSeen = TRUE] ELSE str
   /\ UNCHANGED <<sc, info>>
 
+\* an entry was removed from the raw base store
+StepDel(e) ==
+  /\ e.ev = "Del"
+  /\ ts' = IF e.res = "ok" /\ e.round \in TRounds THEN [ts EXCEPT ![e.round] = "none"] ELSE ts
+  /\ UNCHANGED <<alarms, sc, str, info>>
+
 StepStreamEnd(e) ==
   /\ e.ev \in {"CtxDone", "Close"}
   \* (an item taken just before the cancellation may legitimately fail to be stored: Put returns ctx.Err())
@@ -150,7 +159,7 @@ StepStreamEnd(e) ==
   /\ UNCHANGED <<sc, ts, info>>
 
 StepEnv(e) ==
-  /\ e.ev \in {"Tick", "Req", "AggPut", "SyncRet", "Progress"}
+  /\ e.ev \in {"Tick", "Req", "AggPut", "SyncRet", "Progress", "Abort"}
   /\ info' = CASE e.ev = "Tick" -> [info EXCEPT !.ticks = @ + 1]
                [] e.ev = "Req" -> [info EXCEPT !.reqs = @ + 1]
                [] e.ev = "SyncRet" -> [info EXCEPT !.ret = e.err]
@@ -169,8 +178,8 @@ StepCheck(e) ==
                  ELSE IF ~CheckExact(rep, bad, e.upTo, THead)
                         THEN {Alarm("CheckExact", e, IF rep \subseteq bad THEN "missed-faulty-round" ELSE "reported-sound-round")}
                         ELSE {}
-         A2 == IF aborted # LastUnreadable(ts, sc.chained) THEN Conf(e, "the check aborts exactly when Last() is unreadable")
-               ELSE IF ~aborted /\ rep # CheckOp(ts, sc.chained, e.upTo) THEN Conf(e, "reported set differs from CheckOp") ELSE {}
+         A2 == IF aborted # LastUnreadable(ts, TChained) THEN Conf(e, "the check aborts exactly when Last() is unreadable")
+               ELSE IF ~aborted /\ rep # CheckOp(ts, TChained, e.upTo) THEN Conf(e, "reported set differs from CheckOp") ELSE {}
          A3 == IF e.head >= 0 /\ e.head # THead THEN Conf(e, "head differs from the tracked store") ELSE {}
      IN /\ alarms' = alarms \cup A1 \cup A2 \cup A3
         /\ info' = [info EXCEPT !.reported = rep, !.checked = TRUE]
@@ -187,22 +196,30 @@ StepCorrected(e) ==
          postc == [r \in TRounds |-> post[r][1]]
          \* in a chained trimmed store the read-back of r+1 depends on r: compare only rounds
          \* whose predecessor was not reported either
-         indep == {r \in TRounds : r \notin rep /\ (sc.chained /\ r > 0 => (r - 1) \notin rep)}
+         indep == {r \in TRounds : r \notin rep /\ (TChained /\ r > 0 => (r - 1) \notin rep)}
          touched == {r \in indep : post[r] # pre[r]}
          A1 == IF touched # {}
                  THEN {Alarm("RepairExact", e, IF \A r \in touched : post[r][1] = "ok"
                                                  THEN "unreported-round-written-with-valid-beacon"
                                                  ELSE "unreported-round-damaged")} ELSE {}
-         A2 == IF e.returned /\ THonestAhead /\ ~RepairRestored(postc, rep)
+         interrupted == IF "interrupted" \in DOMAIN e THEN e.interrupted ELSE FALSE
+         A2 == IF e.returned /\ ~interrupted /\ THonestAhead /\ ~RepairRestored(postc, rep)
                  THEN {Alarm("RepairExact", e, "reported-round-not-restored")} ELSE {}
-     IN alarms' = alarms \cup A1 \cup A2
+         \* however the repair ended (done, cancelled, failed write): what was stored and readable before it still is,
+         \* by Get (read-back classes) and by a cursor scan
+         prec == [r \in TRounds |-> pre[r][1]]
+         curLost == IF "pre_cursor" \in DOMAIN e THEN Range(e.pre_cursor) \ Range(e.post_cursor) ELSE {}
+         A3 == IF RepairLosesRound(prec, postc) \/ curLost # {}
+                 THEN {Alarm("RepairLosesRound", e, IF interrupted THEN "round-missing-after-interrupted-repair"
+                                                                    ELSE "round-missing-after-repair")} ELSE {}
+     IN alarms' = alarms \cup A1 \cup A2 \cup A3
   /\ UNCHANGED <<sc, ts, str, info>>
 
 \* end of the scenario: the system is quiescent (or the fair environment used its budget)
 StepEnd(e) ==
   /\ e.ev = "End"
   /\ LET okAt(r) == Cls(e.rounds, r)[2] = "ok"
-         want(r) == ts[r] = "ok" /\ (sc.chained /\ r > 0 => ts[r - 1] = "ok")
+         want(r) == ts[r] = "ok" /\ (TChained /\ r > 0 => ts[r - 1] = "ok")
          A1 == IF e.quiescent /\ e.head >= 0 /\ \E r \in TRounds : okAt(r) # want(r) THEN Conf(e, "final store differs from the tracked store") ELSE {}
          repaired == e.returned /\ \A r \in info.reported : okAt(r)
          converged == IF sc.mode = "repair" THEN repaired ELSE ConvergedAt(e.head, TGoal)
@@ -239,7 +256,7 @@ StepTimeout(e) ==
 TraceNext ==
   /\ l <= Len(TraceLog)
   /\ LET e == TraceLog[l] IN
-       \/ StepReset(e) \/ StepOpen(e) \/ StepRecv(e) \/ StepBeforePut(e) \/ StepPut(e) \/ StepStreamEnd(e)
+       \/ StepReset(e) \/ StepOpen(e) \/ StepRecv(e) \/ StepBeforePut(e) \/ StepPut(e) \/ StepDel(e) \/ StepStreamEnd(e)
        \/ StepEnv(e) \/ StepCheck(e) \/ StepCorrected(e) \/ StepEnd(e) \/ StepTimeout(e) \/ StepCrash(e)
   /\ l' = l + 1
   /\ UNCHANGED vars
